@@ -253,6 +253,24 @@ pub fn run(cfg: &Cfg, rep: &mut Rep) {
                     _ => continue,
                 }
             }
+            7 if r.chance(1, 2) => {
+                // anywhere in the representable range (two centuries inside the bounds): the same instant, neighbours, strangers
+                rep.class("pair/far-range");
+                let m = 2 * NPC;
+                let ca = r.range_i128(MIN_NS + m, MAX_NS - m);
+                let t = w.to_tai(ca, sa);
+                let d = match r.below(4) {
+                    0 => 0,
+                    1 => *r.pick(&[1i128, -1, 101, -101, NS_S, -NS_S]),
+                    2 => gen::rand_count_within(&mut r, NPC),
+                    _ => r.range_i128(MIN_NS + m, MAX_NS - m) - t,
+                };
+                let tb = (t + d).clamp(MIN_NS + m, MAX_NS - m);
+                match w.from_tai(tb, sb) {
+                    Some(cb) => (ca, cb),
+                    None => continue,
+                }
+            }
             _ => (gen::rand_reading(&mut r, sa, &lats[ia]), gen::rand_reading(&mut r, sb, &lats[ib])),
         };
         check_pair(rep, &w, ca, sa, cb, sb);
